@@ -718,11 +718,13 @@ def replay(ctx):
 
 
 def run(ctx):
-    ctx.register_predicates({'C16-akima-training-gradient': pred_akima_training_gradient,
-                             'C16-akima-four-point-grid': pred_akima_four_points,
-                             'C16-gradient-method-akima-nd': pred_gradient_method,
-                             'C16-gradient-after-value-only-interpolate': pred_gradient_after_value_only,
-                             'C16-fixed-method-mixed-batch': c15.pred_fixed_mixed_batch})
+    preds = {'C16-akima-training-gradient': pred_akima_training_gradient,
+             'C16-akima-four-point-grid': pred_akima_four_points,
+             'C16-gradient-method-akima-nd': pred_gradient_method,
+             'C16-gradient-after-value-only-interpolate': pred_gradient_after_value_only,
+             'C16-fixed-method-mixed-batch': c15.pred_fixed_mixed_batch}
+    ctx.register_predicates(preds)
+    c15.install_tally(ctx, preds)
     if getattr(ctx, 'replay', None):
         return replay(ctx)
     quick = ctx.tier == 'quick'
